@@ -209,7 +209,14 @@ def verify_modules(modnames, tier='quick', prop=None, only=None):
                     traceback.print_exc()
                 continue
             except KeyError as e:
-                errors.append('%s: %s' % (qual, e))
+                # a construct the executor has no encoding for (e.g. an untyped empty container used as a value)
+                outside.append('%s: outside the verified subset: no encoding (%s)' % (qual, e))
+                try:
+                    outside_detail.append((qual, prog.source_hash(qual) if ct.kind != 'lemma' else None))
+                except Exception:
+                    outside_detail.append((qual, None))
+                if os.environ.get('PYVC_TRACE'):
+                    traceback.print_exc()
                 continue
             except Exception:
                 errors.append('%s: engine error: %s' % (qual, traceback.format_exc()))
